@@ -19,3 +19,6 @@ open Femio.C02
 #print axioms C02_parse_render_lines
 #print axioms C02_parse_render_chars
 #print axioms C02_single_chars
+#print axioms C02_res_glob_any_stem
+#print axioms C02_res_glob_listing
+#print axioms C02_res_file_name
